@@ -339,6 +339,10 @@ def gen_desc(seed, idx):
                 op['iotimeout'] = rng.choice([0.001, 0.5, tout / 1000.0, 20.0])
             elif many_timers and rng.random() < 0.9:
                 op['iotimeout'] = rng.choice([60.0, 300.0, 300.0])
+        if rng.random() < 0.12:
+            # the application submits a follow-up request to the same peer from inside the outcome callback of this one
+            op['chain'] = {'op': 'req', 'c': 'c0', 's': op['s'] if rng.random() < 0.8 else 's%d' % rng.randrange(nserv), 'tok': TOK_BASE + 500 + k,
+                           'rq': rng.choice([0, 3, 10, rng.choice(lens)]), 'rs': rng.choice([0, 3, 10, rng.choice(lens)])}
         ops.append(op)
         if mode == 'iocb' and rng.random() < 0.15:
             ops.append({'t': round(t + rng.choice([0.0, 0.001, 0.3, tout / 1000.0, 2.0]), 4), 'op': 'cancel',
@@ -418,7 +422,7 @@ def units(tier, seed):
     for i, cell in enumerate(cells(tier)):
         pairs = (tier == 'thorough' and cell['size'] in ('uu', 'su', 'us', 'ss')) or (cell['win'] == 4 and cell['retries'] == 0 and cell['size'] in ('su', 'us'))
         us.append({'kind': 'cell', 'must': True, 'seed': seed, 'cell': cell, 'desc': cell_desc(seed, cell), 'pairs': pairs})
-    n_units = 4000 if tier == 'thorough' else 400
+    n_units = 4000 if tier == 'thorough' else 800
     per = 60
     for k in range(n_units):
         us.append({'kind': 'explore', 'seed': seed, 'start': k * per, 'count': per})
